@@ -120,6 +120,18 @@ func c20Forms() []formCase {
 		add("build-member", "member/"+k+"/in-set-var", pre+"var TheSet = wire.NewSet("+arg+")\n\n"+inj("A", "A{}", "TheSet"))
 		add("build-member", "member/"+k+"/nested-inline", pre+inj("A", "A{}", "wire.NewSet(wire.NewSet("+arg+"))"))
 	}
+	// ---- how a provider set variable is initialised
+	setInits := map[string]string{
+		"composite-literal": "wire.ProviderSet{}", "deref-new": "*new(wire.ProviderSet)", "paren-newset": "(wire.NewSet(NewA))",
+		"index-of-array": "[1]wire.ProviderSet{wire.NewSet(NewA)}[0]", "call": "mkSet()", "other-var": "Set1", "conversion": "wire.ProviderSet(Set1)",
+		"func-literal-call": "func() wire.ProviderSet { return wire.NewSet(NewA) }()", "field": "struct{ S wire.ProviderSet }{Set1}.S",
+	}
+	for _, k := range sortedStrKeys(setInits) {
+		add("set-var-init", "set-var-init/"+k+"/used", "var SV = "+setInits[k]+"\n\n"+inj("A", "A{}", "SV, NewPA"))
+		add("set-var-init", "set-var-init/"+k+"/unreferenced", "var SV = "+setInits[k]+"\n\n"+inj("A", "A{}", "NewA"))
+	}
+	add("set-var-init", "set-var-init/pointer-to-set", "var SVp = &Set1\n\n"+inj("A", "A{}", "*SVp"))
+	add("set-var-init", "set-var-init/typed-decl", "var SV wire.ProviderSet = wire.NewSet(NewA)\n\n"+inj("A", "A{}", "SV"))
 	add("build-member", "member/spread", "func Init() A {\n\twire.Build(Members...)\n\treturn A{}\n}\n")
 	add("build-member", "member/local-var-set", "func Init() A {\n\ts := wire.NewSet(NewA)\n\twire.Build(s)\n\treturn A{}\n}\n")
 	// ---- Struct
